@@ -565,3 +565,138 @@ Section Placement.
     split; [apply rt_insert_msgs_same; exact Hne|intros q Hq; apply rt_insert_msgs_other; exact Hq].
   Qed.
 End Placement.
+
+(** * Shape: the errors property is a fold of single insertions, and the dict below ANY path holds exactly the
+      next path elements of the insertions that pass through it *)
+Fixpoint rt_sub (p : path) (t : rtree) {struct p} : rtree :=
+  match p with
+  | [] => t
+  | k :: p' => rt_sub p' (snd (es_get_d k (rt_entries t)))
+  end.
+
+Definition ins1 (t : rtree) (pm : path * msg) : rtree := rt_insert (fst pm) (snd pm) t.
+
+Lemma ins1_pair t p m : ins1 t (p, m) = rt_insert p m t.
+Proof. reflexivity. Qed.
+
+Lemma rt_sub_insert_below : forall p k q m t,
+  rt_sub p (rt_insert (p ++ k :: q) m t) = rt_insert (k :: q) m (rt_sub p t).
+Proof.
+  induction p as [|k0 p IH]; intros k q m [es]; [reflexivity|].
+  cbn [app]. destruct (p ++ k :: q) as [|k2 r] eqn:E; [destruct p; discriminate|].
+  rewrite rt_insert_cons2. cbn [rt_sub rt_entries]. rewrite es_get_d_update_same. cbn [snd].
+  rewrite <- E. apply IH.
+Qed.
+
+Lemma rt_sub_insert_aside : forall p r m t,
+  (forall k q, r <> p ++ k :: q) -> rt_sub p (rt_insert r m t) = rt_sub p t.
+Proof.
+  induction p as [|k0 p IH]; intros r m [es] Hn.
+  - destruct r as [|k r]; [reflexivity|]. exfalso. apply (Hn k r). reflexivity.
+  - destruct r as [|k2 r']; [reflexivity|].
+    destruct (key_eqb k0 k2) eqn:E.
+    + apply key_eqb_eq in E. subst k2.
+      destruct r' as [|k3 r''].
+      * rewrite rt_insert_single. cbn [rt_sub rt_entries]. rewrite es_get_d_update_same. reflexivity.
+      * rewrite rt_insert_cons2. cbn [rt_sub rt_entries]. rewrite es_get_d_update_same. cbn [snd].
+        apply IH. intros k q Hc. apply (Hn k q). cbn [app]. rewrite Hc. reflexivity.
+    + apply key_eqb_neq in E.
+      destruct r' as [|k3 r'']; [rewrite rt_insert_single|rewrite rt_insert_cons2]; cbn [rt_sub rt_entries];
+        rewrite es_get_d_update_other by exact E; reflexivity.
+Qed.
+
+Lemma strictly_below_dec (p r : path) : {kq : key * path | r = p ++ fst kq :: snd kq} + {forall k q, r <> p ++ k :: q}.
+Proof.
+  revert r. induction p as [|k0 p IH]; intro r.
+  - destruct r as [|k r]; [right; intros k q; discriminate|left; exists (k, r); reflexivity].
+  - destruct r as [|k2 r']; [right; intros k q; discriminate|].
+    destruct (key_dec k0 k2) as [<-|Hne].
+    + destruct (IH r') as [[[k q] H]|H].
+      * left. exists (k, q). cbn [fst snd app] in *. rewrite H. reflexivity.
+      * right. intros k q Hc. cbn [app] in Hc. injection Hc as Hc. exact (H k q Hc).
+    + right. intros k q Hc. cbn [app] in Hc. injection Hc as Hk _. exact (Hne (eq_sym Hk)).
+Qed.
+
+(* the keys of the dict below p after a sequence of insertions *)
+Theorem fold_insert_sub_keys : forall (l : list (path * msg)) p t k,
+  In k (rt_keys (rt_sub p (fold_left ins1 l t))) <->
+  In k (rt_keys (rt_sub p t)) \/ exists q m, In (p ++ k :: q, m) l.
+Proof.
+  induction l as [|[r m] l IH]; intros p t k; cbn [fold_left].
+  - split; [intro H; left; exact H|intros [H|[q [m [] ]]]; exact H].
+  - rewrite IH. rewrite ins1_pair.
+    destruct (strictly_below_dec p r) as [[[k1 q1] H]|H].
+    + cbn [fst snd] in H. subst r. rewrite rt_sub_insert_below, rt_insert_keys_iff. split.
+      * intros [[Hi|Hk]|[q [m' Hi]]].
+        -- left. exact Hi.
+        -- right. subst k. exists q1, m. left. reflexivity.
+        -- right. exists q, m'. right. exact Hi.
+      * intros [Hi|[q [m' [Hi|Hi]]]].
+        -- left. left. exact Hi.
+        -- left. right. injection Hi as Hi _. apply app_inv_head in Hi. injection Hi as Hi _. symmetry. exact Hi.
+        -- right. exists q, m'. exact Hi.
+    + rewrite rt_sub_insert_aside by exact H. split.
+      * intros [Hi|[q [m' Hi]]]; [left; exact Hi|right; exists q, m'; right; exact Hi].
+      * intros [Hi|[q [m' [Hi|Hi]]]]; [left; exact Hi| |right; exists q, m'; exact Hi].
+        injection Hi as Hi _. exfalso. exact (H k q Hi).
+Qed.
+
+Section Shape.
+  Variable F : facts.
+  Local Notation M := (f_masks F).
+
+  (* the (path, message) pairs the insertion of e makes, in order -- by the recursion of insert_err *)
+  Fixpoint ins_list (fuel : nat) (kind : nat) (pf : option key) (e : error) : list (path * msg) :=
+    match fuel with
+    | O => []
+    | S f =>
+        if is_logic M e then
+          (e_dp e, mk_msg (last_key (e_dp e)) e) :: flat_map (ins_list f 2 (last_key (e_dp e))) (child_errors M e)
+        else if is_group M e then flat_map (ins_list f 1 None) (child_errors M e)
+        else match kind with
+             | O => if has_message F (e_code e) then [(e_dp e, mk_msg (last_key (e_dp e)) e)] else []
+             | 1%nat => [(e_dp e, mk_msg (last_key (e_dp e)) e)]
+             | _ => [(e_dp e, mk_msg pf e)]
+             end
+    end.
+
+  Lemma fold_ins1_app l1 l2 t : fold_left ins1 (l1 ++ l2) t = fold_left ins1 l2 (fold_left ins1 l1 t).
+  Proof. apply fold_left_app. Qed.
+
+  Lemma insert_err_is_fold : forall fuel kind pf e t,
+    insert_err F fuel kind pf e t = fold_left ins1 (ins_list fuel kind pf e) t.
+  Proof.
+    induction fuel as [|f IH]; intros kind pf e t; [reflexivity|].
+    cbn [insert_err ins_list].
+    assert (G : forall kind' pf' cs t', fold_left (fun t0 c => insert_err F f kind' pf' c t0) cs t' =
+                                        fold_left ins1 (flat_map (ins_list f kind' pf') cs) t').
+    { intros kind' pf' cs. induction cs as [|c cs IHc]; intro t'; cbn [fold_left flat_map]; [reflexivity|].
+      rewrite fold_ins1_app, IHc, IH. reflexivity. }
+    destruct (is_logic M e); [cbn [fold_left]; rewrite ins1_pair; apply G|].
+    destruct (is_group M e); [apply G|].
+    destruct kind as [|[|kk]]; [destruct (has_message F (e_code e))| |]; reflexivity.
+  Qed.
+
+  Definition all_insertions (errs : list error) : list (path * msg) :=
+    flat_map (fun e => ins_list (S (err_depth e)) 0 None (rewrite F (S (err_depth e)) 0 e)) errs.
+
+  (* the errors property is the fold of single insertions over the flattened (path, message) list *)
+  Theorem render_is_fold errs : fst (render F errs) = fold_left ins1 (all_insertions errs) rt_empty.
+  Proof.
+    unfold render, all_insertions. cbn [fst]. generalize rt_empty.
+    induction errs as [|e errs IH]; intro t; cbn [fold_left flat_map]; [reflexivity|].
+    rewrite fold_ins1_app, IH. unfold add_error. rewrite insert_err_is_fold. reflexivity.
+  Qed.
+
+  Lemma rt_sub_empty p : rt_sub p rt_empty = rt_empty.
+  Proof. induction p as [|k p IH]; [reflexivity|]. cbn [rt_sub]. exact IH. Qed.
+
+  (* nothing else is in the tree: the dict below ANY path p (the top level for p = []) has exactly the keys k for
+     which some insertion goes to p ++ k :: q *)
+  Theorem render_sub_keys errs p k :
+    In k (rt_keys (rt_sub p (fst (render F errs)))) <-> exists q m, In (p ++ k :: q, m) (all_insertions errs).
+  Proof.
+    rewrite render_is_fold, fold_insert_sub_keys, rt_sub_empty. change (rt_keys rt_empty) with (@nil key). cbn [In].
+    split; [intros [[]|H]; exact H|intro H; right; exact H].
+  Qed.
+End Shape.
